@@ -81,7 +81,7 @@ def gen_table(rng):
             for r in range(nrows):
                 if rng.random() < 0.25:
                     c["data"][r] = missing if c["integer"] else float(missing)
-    return {"cols": cols, "nrows": nrows, "missing": mv, "missing_class": str(missing), "blank_lines": rng.random() < 0.3, "eol": rng.choice(["\n", "\n", "\r\n"])}
+    return {"cols": cols, "nrows": nrows, "missing": mv, "missing_class": str(missing), "blank_lines": rng.random() < 0.3, "eol": rng.choice(["\n", "\n", "\r\n"]), "lead_dot": rng.random() < 0.3}
 
 
 def cases(ctx):
@@ -131,7 +131,10 @@ def write_csv(table, path, blank_positions=None, mutate_other=None, target=None,
             v = c["data"][r]
             if mutate_other is not None and ci != target:
                 v = mutate_other(ci, r, v)
-            cells.append(repr(int(v)) if c["integer"] else repr(float(v)))
+            txt = repr(int(v)) if c["integer"] else repr(float(v))
+            if not c["integer"] and table.get("lead_dot") and (txt.startswith("0.") or txt.startswith("-0.")) and "e" not in txt:
+                txt = txt.replace("0.", ".", 1)          # .5 and -.25 are numbers, too
+            cells.append(txt)
         if ragged is not None:
             # rows that are longer or shorter than the header in *other* columns: a trailing delimiter, an extra cell, or the
             # cells after the requested column left out
@@ -507,10 +510,10 @@ def run_write(ctx, case):
         # column names with backslashes in them (written with the escapes the command-file syntax has for quoted strings)
         hdr = ["c%d" % k for k in range(len(cols))]
         if case["rseed"] % 3 == 0:
-            hdr[0] = ["rate\\time", "a\\nb", "x\\ry", "q\\x41", "d\\u0041e", "back\\\\slash"][case["rseed"] // 3 % 6]
+            hdr[0] = ["rate\\time", "a\\nb", "x\\ry", "q\\x41", "d\\u0041e", "back\\\\slash", "depth\t(m)", 'pipe 5"', 'say "hi"', "tab\tat\tend\t"][case["rseed"] // 3 % 10]
         esc = lambda name: name.replace("\\", "\\\\").replace('"', '\\"')
         with open(os.path.join(d2, "in.csv"), "w") as f:
-            f.write(",".join(hdr) + "\n")
+            f.write(",".join('"%s"' % h.replace('"', '""') if '"' in h else h for h in hdr) + "\n")
             for r in range(t["nrows"]):
                 f.write(",".join(repr(c["data"][r]) for c in cols) + "\n")
         lines = ['R%d = EEMSRead(InFileName = "in.csv", InFieldName = "%s", DataType = %s)' % (k, esc(hdr[k]), "Integer" if c["integer"] else "Float") for k, c in enumerate(cols)]
